@@ -222,7 +222,7 @@ static void modeFmgStart(const Case& c)
         Vector<double> uD = a->solution();
         // history E: a previous full solve on the same object and same options but with iterations
         Cfg withIt   = k;
-        withIt.maxit = 2;
+        withIt.maxit = 150; // a complete solve: the combined mode switches its smoother from the residual history
         auto e       = makeSolver(withIt);
         e->setup();
         e->solve();
